@@ -49,7 +49,7 @@ def checks_for(path, op, lineno):
     if path == "src/errors/query_params.rs":
         return ["C14"]
     if path == "src/value.rs":
-        return ["C19", "C13", "C02"]
+        return ["C19", "C13", "C06", "C10"]
     if path == "src/serde_json.rs":
         return ["C13", "C01", "C12"]
     if path == "src/serde_cs.rs":
